@@ -155,9 +155,6 @@ def _case(nodes, edges, ms, sched, prior=None, mstype=None):
 
 
 # every integer type a caller may hold the limit in (e.g. max() of a numpy array of motif sizes)
-MS_TYPES = ["np.int64", "np.int32", "np.uint8", "np.int16", "np.intp", "intsub", "bool", "omitted"]
-
-
 def _ms_types_for(ms):
     out = ["np.int64", "np.int32", "np.int16", "np.intp", "intsub"]
     if ms >= 0:
